@@ -31,6 +31,7 @@ class State:
         s.spec = self.spec
         s.nyield = self.nyield
         s.last_yield = self.last_yield
+        s.raw_index = getattr(self, 'raw_index', False)
         return s
 
     # ---- path condition
